@@ -8,6 +8,9 @@ arguments handed to create_impedance / create_line_from_parameters for the gener
         bf_pu = 2 pi f c_nf_per_km*1e-9 * length_km * parallel * Z_N
     -- with length_km and parallel **of line k itself** (the per-unit pi model of the line, C02 line build): the values must come from
     the replaced line's own row whatever the index labels are;
+  * replace_xward_by_internal_elements: the series impedance created for an xward is its r_ohm / x_ohm in per unit of the impedance's
+    own sn_mva (physical value independent of net.sn_mva); load, shunt and the gen holding vm_pu copy the xward's values;
+  * select_subnet: the new network carries f_hz of its source (line charging depends on it);
   * replace_impedance_by_line: the line created for a symmetric impedance has r_ohm_per_km * length_km = rft_pu * Z_N (x alike), no
     capacitance, parallel = 1, same buses and in_service -- the inverse mapping, so that the round trip restores the parameters.
 """
@@ -109,6 +112,80 @@ def run(vc):
         p.prove("impedance->line:buses", z3.And(to_z(a[0], I) == to_z(c["from_bus"], I), to_z(a[1], I) == to_z(c["to_bus"], I)), meta=dict(part="i2l"))
         p.prove("impedance->line:in_service", to_z(k["in_service"]) == to_z(c["in_service"]), meta=dict(part="i2l"))
     vc.explore("replace_impedance_by_line", h_i2l, max_paths=100)
+
+
+    # ---- xward -> internal elements: per-unit series impedance ------------------------------------------------------------------
+    def h_xw(p):
+        xw = pm.table("xward", {"bus": I, "ps_mw": R, "qs_mvar": R, "pz_mw": R, "qz_mvar": R, "r_ohm": R, "x_ohm": R, "vm_pu": R,
+                                "in_service": B, "name": PV})
+        bus = pm.table("bus", {"vn_kv": R, "min_vm_pu": R, "max_vm_pu": R})
+        net = netmodel.Net({"xward": xw, "bus": bus, "sn_mva": real("sn_mva"), "res_xward": Opaque("res_xward")}, strict=True)
+        created = {}
+        me = p.it.modenv(GM)
+        for nm in ("create_bus", "create_load", "create_shunt", "create_gen", "create_impedance"):
+            me.vals[nm] = Native(lambda it, net_, *a, _nm=nm, **k: created.setdefault(_nm, []).append((a, k)) or SV(z3.Int(f"new_{_nm}")),
+                                 name=nm, pure=False)
+        for nm in ("element_associated_groups", "attach_to_groups", "drop_elements_simple", "log_to_level"):
+            me.vals[nm] = Native(lambda it, *a, **k: Opaque("groups"), name=nm, pure=False)
+        p.assume(z3.And(xw.space.n > 0, to_z(net.fields.raw("sn_mva")) > 0))
+        out = p.call(f"{GM}:replace_xward_by_internal_elements", net, None, False)
+        if out.raised:
+            raise EngineError(f"replace_xward_by_internal_elements raised {out.exc!r}")
+        c = xw.cols
+        imp = created.get("create_impedance", [])
+        p.prove("xward:one-impedance", len(imp) == 1, meta=dict(part="xward"))
+        if imp:
+            a, k = imp[0]
+            vn = to_z(bus.by_label(p.it, "vn_kv", to_z(c["bus"], I)))
+            p.assume(vn > 0)
+            sn_imp = to_z(a[4] if len(a) > 4 else k.get("sn_mva"), R)
+            zn = vn * vn / sn_imp
+            p.prove("xward:series-resistance-physical", to_z(a[2], R) * zn == to_z(c["r_ohm"]), meta=dict(part="xward"),
+                    note="rft_pu * vn^2 / sn_mva(impedance) == r_ohm of the xward, for every net.sn_mva")
+            p.prove("xward:series-reactance-physical", to_z(a[3], R) * zn == to_z(c["x_ohm"]), meta=dict(part="xward"))
+            p.prove("xward:impedance-from-the-xward-bus", to_z(a[0], I) == to_z(c["bus"], I), meta=dict(part="xward"))
+        ld, sh, gn = created.get("create_load", []), created.get("create_shunt", []), created.get("create_gen", [])
+        p.prove("xward:load-shunt-gen-created", len(ld) == 1 and len(sh) == 1 and len(gn) == 1, meta=dict(part="xward"))
+        if ld and sh and gn:
+            p.prove("xward:load", z3.And(to_z(ld[0][0][1], R) == to_z(c["ps_mw"]), to_z(ld[0][0][2], R) == to_z(c["qs_mvar"])), meta=dict(part="xward"))
+            p.prove("xward:shunt", z3.And(to_z(sh[0][1]["p_mw"], R) == to_z(c["pz_mw"]), to_z(sh[0][1]["q_mvar"], R) == to_z(c["qz_mvar"])), meta=dict(part="xward"))
+            p.prove("xward:gen-holds-the-internal-voltage", z3.And(to_z(gn[0][0][2], R) == to_z(c["vm_pu"]), to_z(gn[0][0][1], R) == 0), meta=dict(part="xward"))
+    vc.explore("replace_xward_by_internal_elements", h_xw, max_paths=100)
+
+    # ---- select_subnet keeps the network-wide parameters the results depend on ------------------------------------------------
+    def h_sub(p):
+        from pyvc import frame, lib_np
+        frame.install(p.it)
+        p.it.opaque_loops = True
+        p.it.lenient_numpy = True
+        class ClosedNet(frame.FrameNet):
+            """a net with the standard element tables and no optional extras"""
+
+            def sym_contains(self, it, key):
+                if self.fields.presence(key) is True:
+                    return True
+                return key in ("bus_geodata", "line_geodata") or self._is_table(key) and not key.endswith("_characteristic_table") and not key.endswith("geodata")
+        net = ClosedNet(extra={"f_hz": real("f_hz"), "name": SV(z3.Const("net_name", PV)), "sn_mva": real("sn_mva"), "std_types": PDict()})
+        made = []
+
+        def create_empty(it, *a, **k):
+            n2 = frame.FrameNet(extra={"f_hz": 50.0, "name": "", "sn_mva": k.get("sn_mva", 1.0), "std_types": PDict()})
+            made.append(n2)
+            return n2
+        me = p.it.modenv(GM)
+        me.vals["create_empty_network"] = Native(create_empty, name="create_empty_network", pure=False)
+        me.vals["pandapowerNet"] = Native(lambda it, x: x, name="pandapowerNet")
+        me.vals["pp_elements"] = Native(lambda it, **k: ["load", "sgen", "gen"], name="pp_elements")
+        me.vals["_select_cost_df"] = Native(lambda it, *a, **k: None, name="_select_cost_df", pure=False)
+        out = p.call(f"{GM}:select_subnet", net, Opaque("buses"), False, False, False)
+        if out.raised:
+            raise EngineError(f"select_subnet raised {out.exc!r}")
+        p.prove("subnet:new-net", len(made) == 1 and out.value is made[0], meta=dict(part="subnet"))
+        if made:
+            f2 = made[0].fields.raw("f_hz")
+            p.prove("subnet:f_hz-kept", isinstance(f2, SV) and z3.eq(f2.z, net.fields.raw("f_hz").z), meta=dict(part="subnet"),
+                    note="line susceptances depend on the network frequency: the selected subnet must carry the frequency of its source")
+    vc.explore("select_subnet", h_sub, max_paths=200)
 
 
 def classify(ob, model):
